@@ -94,7 +94,7 @@ PARSE_PROPS = {
              trusted_base=TB_PARSE, assumptions=ASSUME_PARSE + ["the abstract-document printer and mirror oracle (lib/gen.py, lib/oracles.py) state what 'mirrors' means"],
              distribution=dist_parse),
     "C03": P(["Model/LrDriver.v", "Proofs/Totality.v", "Proofs/Master.v", "Proofs/RegexLang.v", "Proofs/LexerSafe.v", "Proofs/Keywords.v",
-              "Proofs/Words.v", "Proofs/Typing.v", "Proofs/UserTyped.v", "Proofs/Automaton.v", "Proofs/DriverSafe.v", "Properties/C03.v"], [], gens.gen_C03,
+              "Proofs/Words.v", "Proofs/Typing.v", "Proofs/UserTyped.v", "Proofs/Automaton.v", "Proofs/DriverSafe.v", "Proofs/Grammar.v", "Properties/C03.v"], [], gens.gen_C03,
              "well-formed documents (must be accepted silently), documents malformed by construction (keyword or reserved word as item / "
              "member / package name, missing package, two items, trailing text: must carry an Error), token-level mutations and soups "
              "(no tree => Error; no keyword stored as identifier), lexical corner cases; validation must keep every parse-stage diagnostic",
@@ -107,13 +107,13 @@ PARSE_PROPS = {
              "parents, siblings increasing; syntax diagnostics cover exactly the offending token",
              runs=[("parse", "P", ["corr_parse_shape"]), ("validate", "V", ["spec_C04_validation"])], py_oracle=o_C04,
              trusted_base=TB_PARSE, assumptions=ASSUME_PARSE, distribution=dist_parse),
-    "C14": P(["Model/LrDriver.v"], [], gens.gen_C14,
+    "C14": P(["Model/LrDriver.v", "Proofs/DriverSafe.v", "Proofs/Grammar.v", "Properties/C14.v"], [], gens.gen_C14,
              "well-formed items with 1-5 members; at every member position a garbage token string (1-9 tokens over the full vocabulary "
              "without ; { } and, in enums, without ,) followed by the terminator; the same document without it as baseline; a case counts "
              "when the garbage is not itself accepted as a member",
-             level="other", runs=[("parse", "P", ["corr_parse_shape"])], py_oracle=o_C14,
+             runs=[("parse", "P", ["corr_parse_shape"])], py_oracle=o_C14,
              trusted_base=TB_PARSE, assumptions=ASSUME_PARSE, distribution=dist_parse),
-    "C18": P(["Model/Javadoc.v", "Proofs/Javadoc.v", "Properties/C18.v"], [], gens.gen_C18,
+    "C18": P(["Model/Javadoc.v", "Proofs/Javadoc.v", "Proofs/JavadocGap.v", "Properties/C18.v"], [], gens.gen_C18,
              "generated documents with doc comments (paragraphs, lines, @tags; star / plain / one-line decoration; LF and CRLF; ASCII, accented, "
              "CJK, emoji words) on items, members, enum elements and arguments, rendered with ASCII whitespace and ordinary comments "
              "without '/' or '*' in the gaps; plus 36 explicit arrangements (none / ordinary / line comment / doc / doc then ordinary / two "
